@@ -1,7 +1,10 @@
 #!/bin/bash
-# run every claimed check (quick tier, VERIF_SEED from the environment or 0) one after the other; summary on stdout
+# run every claimed check (tier $1 = quick|thorough, VERIF_SEED from the environment or 0) one after the other; one summary line each:
+# exit code of the check, seconds, VIOLATION / KNOWN-FINDING lines.  Do not edit anything under lean/ while this runs.
 cd /verif
 for c in $(python3 -c "import json; print(' '.join(x['property_id'] for x in json.load(open('MANIFEST.json'))['checks']))" 2>/dev/null); do
-  s=$(date +%s); out=$(./check $c --tier ${1:-quick} 2>&1 | grep -v conda); rc=$?
-  echo "$c rc=$rc $(( $(date +%s) - s ))s violations=$(echo "$out" | grep -c '^VIOLATION') known=$(echo "$out" | grep -c '^KNOWN-FINDING')"
+  s=$(date +%s)
+  ./check $c --tier ${1:-quick} > /tmp/run_all_$c.out 2>&1; rc=$?
+  echo "$c rc=$rc $(( $(date +%s) - s ))s violations=$(grep -c '^VIOLATION' /tmp/run_all_$c.out) known=$(grep -c '^KNOWN-FINDING' /tmp/run_all_$c.out) $(grep -m1 '^VIOLATION' /tmp/run_all_$c.out)"
+  rm -f /tmp/run_all_$c.out
 done
